@@ -335,3 +335,10 @@ package forkexec
 //@ func pkg/forkexec.syncWithChild$1 props C12
 //@   arith int
 //@   ensures FD.closed[p[0]]
+
+// the text of a launch error is built from the step's name (ErrorLocation.String above), the entry index when
+// there is one, and the errno text: memory safety only (Sprintf's output is not modelled)
+//@ func pkg/forkexec.(ChildError).Error props C07
+//@   arith int
+//@   assigns nothing
+//@   callsite (ErrorLocation).String: assert @C07 e == caller_e.Location
